@@ -145,6 +145,12 @@ def obligations(tier):
         obs.append(Ob(f"twice_{area}{suffix}", "E1", "h_twice", {"area": area, "fix": fix}, 1500, f"grammar area {area}{suffix}: pristine-first-use create == create == create on the description mutated by the previous run", weight=150))
     obs += [
         Ob("sign_determinism", "E1", "h_sign_det", {}, 600, "single-level sign x 5 algorithms, key id < 2^32: same KMS output -> identical bytes; independent KMS output -> differs only in the signature field; to-be-signed bytes identical", weight=40),
+    ]
+    for area, fix in SEED_AREAS if tier == "quick" else SEED_AREAS + SEED_AREAS_DEEP:
+        suffix = "_" + "_".join(f"{k}{v}" for k, v in fix.items())
+        obs.append(Ob(f"hash_seed_{area}{suffix}", "E1", "h_hash_seed", {"area": area, "fix": fix}, 1200, f"string-hash seed as a solver variable: every set/frozenset built by the repository's modules iterates in a solver-chosen order; create of grammar area {area}{suffix} still equals the reference bytes", weight=120))
+    obs += [
+        Ob("cwd_independence", "E1", "h_cwd", {}, 900, "working directory as a solver variable: any relative name the code looks up may or may not exist there, with arbitrary content; an envelope whose inputs are inline or given by absolute path is created identically (payload inline hex / by absolute path, digest and size from absolute paths, raw digest)", weight=80),
         Ob("signer_object_history", "E1", "h_signer_history", {}, 900, "ONE Signer object used twice: first call on a signed or unsigned envelope with any already-signed action (solver-chosen; may refuse), second call on an unsigned envelope - the second result equals what a fresh Signer returns for it (no state carried between calls); 5 algorithms", weight=60),
         Ob("encrypt_determinism", "E1", "h_encrypt_det", {}, 600, "encrypt-and-generate three times (same object twice, fresh object): digest, size, AAD, key identical; info differs only in the IV; content is the AEAD output", weight=40),
         Ob("mpi_generate", "E1", "h_mpi", {}, 600, "MPI generate twice + frame: 2 x 2 policies x 4 signature policies, 2 vendor x 2 class names (uuid5 as congruent tokens), 3 sizes, address < 2^32 symbolic", weight=30),
@@ -284,6 +290,92 @@ def h_sign_det(exclude=()):
         return chx.conclude(ok, key_id=kid, alg=ai)
 
     return harness
+
+
+SEED_AREAS = [("authentication", {"blocks": 2, "block_names": 0}), ("encrypt", {"calg": 0, "nested": 1, "rec_protected": 1}), ("textmap", {"entries": 0}), ("envelope_b", {"pn": 0, "pa_len": 0, "with_dep": 1})]
+SEED_AREAS_DEEP = [("manifest_a", {"members": 1}), ("common", {"members": 1}), ("envelope_a", {"severed": 1}), ("header", {}), ("parameters_c", {}), ("nesting", {})]
+
+
+def h_hash_seed(area, fix=None, exclude=()):
+    from props import c02
+    from vlib import suitenv
+
+    e = suitenv.setup()
+    import suit_generator.input_output as IO
+
+    from vlib import chx, ndset
+
+    chx.FIXED.clear()
+    chx.FIXED.update(fix or {})
+    ndset.install([e.CM, e.MF, e.SE, e.EN, e.PL, IO], chx.pick)
+
+    def harness():
+        suitenv.reset(e)
+        ndset.reset()
+        L = c02.SymLeaves(chx)
+        clsname, fn, d = c02.build(area, L, ("F10",))
+        exp = c02.ref_encode(e.refenc, fn, c02._clone(d), e.ctx)
+        out = c02.real_encode(e, clsname, c02._clone(d))
+        return chx.conclude(out == exp)
+
+    return harness
+
+
+def h_cwd(exclude=()):
+    from props import c02
+    from vlib import suitenv
+
+    e = suitenv.setup()
+    from suit_generator.input_output import InputOutputMixin
+
+    from crosshair.tracers import NoTracing
+
+    from vlib import chx, vfs
+
+    counter = [0]
+
+    def cwd_hook(fs, name):
+        # a relative name the code asks for: the (arbitrary) working directory may hold such a file, with arbitrary content
+        counter[0] += 1
+        if chx.sym_bool("cwd_has_%d" % counter[0]):
+            fs.add(name, b"\x07" + chx.sym_bytes("cwd_content%d_" % counter[0], 2))
+            with NoTracing():
+                chx._reg("cwd_name_%d" % counter[0], str(name))
+            return True
+        return False
+
+    # warm-up outside the analysis: lazy imports done by the first creation would otherwise ask the file system (and so the
+    # solver) questions that later paths do not ask
+    suitenv.reset(e)
+    e.fs.add("/abs/fw.bin", b"\x01\x02\x03")
+    InputOutputMixin.prepare_suit_data(build_cwd(c02.CexLeaves({})))
+
+    def harness():
+        suitenv.reset(e)
+        counter[0] = 0
+        vfs.install(e.fs, cwd_free=cwd_hook)
+        try:
+            L = c02.SymLeaves(chx)
+            d = build_cwd(L)
+            e.fs.add("/abs/fw.bin", b"\x01" + chx.sym_bytes("fw", 2))
+            exp = e.refenc.envelope(c02._clone(d), e.ctx)
+            out = InputOutputMixin.prepare_suit_data(c02._clone(d))
+        finally:
+            vfs.install(e.fs)
+        return chx.conclude(out == exp)
+
+    return harness
+
+
+CWD_HEX = ["cafe", "00", "ABCDEF", "0123456789abcdef"]
+
+
+def build_cwd(L):
+    """Inputs inline or by absolute path only."""
+    params = {"suit-parameter-image-digest": {"suit-digest-algorithm-id": "cose-alg-sha-256", "suit-digest-bytes": {"file": "/abs/fw.bin"}}, "suit-parameter-image-size": {"file": "/abs/fw.bin"}, "suit-parameter-uri": L.sel("uri", ["#fw", "fw.bin", "cafe"])}
+    man = {"suit-manifest-version": 1, "suit-manifest-sequence-number": L.uint("seq", 23), "suit-common": {"suit-components": [["M", 2]], "suit-shared-sequence": [{"suit-directive-override-parameters": params}]}}
+    env = {"suit-authentication-wrapper": {"SuitDigest": {"suit-digest-algorithm-id": "cose-alg-sha-256", "suit-digest-bytes": L.sel("supplied", CWD_HEX)}}, "suit-manifest": man, "suit-integrated-payloads": {"#inline": L.sel("inline_hex", CWD_HEX), "#abs": "/abs/fw.bin"}}
+    return {"SUIT_Envelope_Tagged": env}
 
 
 def h_signer_history(exclude=()):
@@ -512,6 +604,10 @@ def replay(obligation, params, cex):
         return _replay_sign(cex)
     if obligation == "signer_object_history":
         return _replay_signer_history(cex)
+    if obligation == "cwd_independence":
+        return _replay_cwd(cex)
+    if obligation.startswith("hash_seed_"):
+        return _replay_hash_seed(params, cex)
     if obligation == "encrypt_determinism":
         return _replay_encrypt(cex)
     if obligation == "mpi_generate":
@@ -596,6 +692,72 @@ def _replay_sign(cex):
         return dict(reproduced=True, detail=f"signing a well-formed envelope raises {type(ex).__name__}: {ex}"[:400])
     finally:
         shutil.rmtree(d, ignore_errors=True)
+
+
+def _replay_cwd(cex):
+    """Real files: the same creation from an empty working directory and from one holding the files the solver placed there."""
+    import os
+    import shutil
+    import tempfile
+
+    from props import c02
+    from suit_generator.input_output import InputOutputMixin
+
+    L = c02.CexLeaves(cex)
+    top = tempfile.mkdtemp(prefix="verif-c18cwd-")
+    cwd = os.getcwd()
+    try:
+        fw = os.path.join(top, "abs", "fw.bin")
+        os.makedirs(os.path.dirname(fw))
+        open(fw, "wb").write(b"\x01" + (cex.get("fw") if isinstance(cex.get("fw"), bytes) else b"\x02\x03"))
+        outs = []
+        for populated in (False, True):
+            wd = os.path.join(top, "wd%d" % populated)
+            os.makedirs(wd)
+            if populated:
+                names = [v for k, v in cex.items() if k.startswith("cwd_name_") and isinstance(v, str)] or ["cafe", "00", "ABCDEF", "0123456789abcdef", "fw.bin", "#fw"]
+                for n in names:
+                    if n and not n.startswith("/") and ".." not in n:
+                        p = os.path.join(wd, n)
+                        os.makedirs(os.path.dirname(p), exist_ok=True)
+                        open(p, "wb").write(b"\x07\xee\xee")
+            os.chdir(wd)
+            d = build_cwd(L)
+            txt = repr(d).replace("/abs/fw.bin", fw)
+            d = eval(txt)  # noqa: S307 - plain literal built above
+            try:
+                outs.append(InputOutputMixin.prepare_suit_data(d))
+            except Exception as ex:  # noqa
+                outs.append(f"raises {type(ex).__name__}: {ex}")
+        if outs[0] != outs[1]:
+            return dict(reproduced=True, detail=f"inputs inline / by absolute path, yet the result depends on the working directory: empty directory -> {str(outs[0].hex() if isinstance(outs[0], bytes) else outs[0])[:120]}, directory holding {names} -> {str(outs[1].hex() if isinstance(outs[1], bytes) else outs[1])[:120]}")
+        return dict(reproduced=False, detail="same bytes from both working directories")
+    finally:
+        os.chdir(cwd)
+        shutil.rmtree(top, ignore_errors=True)
+
+
+def _replay_hash_seed(params, cex):
+    """Fresh interpreters with different PYTHONHASHSEED values run the real encoder on the counterexample's description."""
+    import json
+    import os
+    import subprocess
+    import sys
+
+    from vlib import chx
+
+    here = os.path.dirname(os.path.dirname(os.path.abspath(__file__)))
+    blob = json.dumps({k: chx._jsonable(v) for k, v in cex.items() if not k.startswith("set_order")})
+    outs = {}
+    for seed in ("0", "1", "2", "3", "7", "11", "42", "123", "999", "2024", "31337", "65535"):
+        env = dict(os.environ, PYTHONHASHSEED=seed)
+        p = subprocess.run([sys.executable, "-m", "vlib.seedrun", params["area"], json.dumps(params.get("fix") or {}), blob], cwd=here, env=env, capture_output=True, text=True, timeout=300)
+        line = [ln for ln in p.stdout.splitlines() if ln.startswith("HEX ")]
+        outs[seed] = line[0][4:] if line else "error: " + (p.stderr or p.stdout)[-300:]
+    distinct = sorted(set(outs.values()))
+    if len(distinct) > 1:
+        return dict(reproduced=True, detail=f"the same description encodes differently under different PYTHONHASHSEED values: {len(distinct)} distinct outputs over {len(outs)} seeds, e.g. {distinct[0][:100]} vs {distinct[1][:100]}")
+    return dict(reproduced=False, detail="identical bytes under 12 hash seeds")
 
 
 def _replay_signer_history(cex):
